@@ -160,6 +160,7 @@ func ruleP09Complete(p *Prog, r *Report) {
 		st     *ssa.Store
 		leaves []ssa.Value
 		chain  []ssa.CallInstruction
+		rep    map[int]int64 // leaf index -> k, for strings.Repeat(indentation, k) (resolved while the call it came through is current)
 	}
 	// (a line built in a helper counts once per call of the helper, with the helper's
 	// parameters standing for that call's arguments)
@@ -178,7 +179,15 @@ func ruleP09Complete(p *Prog, r *Report) {
 				}
 				var leaves []ssa.Value
 				catLeaves(st.Val, &leaves, 0)
-				lits = append(lits, lineLit{st, leaves, vi.chain})
+				rep := map[int]int64{}
+				for li, lv := range leaves {
+					if rc, _ := callOf(lv); rc != nil && staticCallee(rc) != nil && staticCallee(rc).String() == "strings.Repeat" {
+						if k, isK := constInt(strip(rc.Common().Args[1])); isK {
+							rep[li] = k
+						}
+					}
+				}
+				lits = append(lits, lineLit{st, leaves, vi.chain, rep})
 			})
 		}
 	}
@@ -189,7 +198,7 @@ func ruleP09Complete(p *Prog, r *Report) {
 			only, _ := onlyLoopGuards(l.st.Block())
 			// classify by leaves
 			var parts []string
-			for _, v := range l.leaves {
+			for li, v := range l.leaves {
 				switch {
 				case isInd(v):
 					parts = append(parts, "IND")
@@ -197,6 +206,15 @@ func ruleP09Complete(p *Prog, r *Report) {
 					if s, isS := constString(v); isS {
 						parts = append(parts, fmt.Sprintf("%q", s))
 						continue
+					}
+					// strings.Repeat(indentation, k) with a constant k: k indentations
+					if rc, _ := callOf(v); rc != nil && staticCallee(rc) != nil && staticCallee(rc).String() == "strings.Repeat" && isInd(rc.Common().Args[0]) {
+						if k, isK := l.rep[li]; isK && k >= 1 && k <= 4 {
+							for i := int64(0); i < k; i++ {
+								parts = append(parts, "IND")
+							}
+							continue
+						}
 					}
 					if n, _ := serCall(v); n != "" {
 						parts = append(parts, "s."+n)
